@@ -321,6 +321,40 @@ def r3(chk, prog):
               r.loc())
 
 
+def r3_add_balance(chk, prog):
+    """add and remove are balanced: every call of addAttribute() adds exactly one entry (the scoped removal takes
+    exactly one away), and it does nothing else to the container"""
+    a = [x for x in prog.functions if x.classq == 'celma::log::detail::LogAttributesContainer'
+         and x.short == 'addAttribute']
+    chk.require(a, 'LogAttributesContainer::addAttribute not found')
+    for f in a:
+        cfg = f.cfg
+        touching = [c for c in f.calls() if any(x.get('k') == 'MemberExpr' and x.get('ref', {}).get('name') ==
+                                                'mAttributes' for x in walk(c))]
+        pushes = [c for c in touching if (c.get('callee') or '').split('::')[-1] in ('push_back', 'emplace_back')
+                  and field_name(object_of(c)) == 'mAttributes']
+        # every path adds ...
+        missing = cfg.must_pass_through(lambda n: n in pushes) if pushes else [0]
+        # ... exactly once ...
+        twice = any(cfg.reachable_from(cfg.position(p), cfg.position(q)) for p in pushes for q in pushes)
+        # ... and nothing else modifies the container (a non-const member of it, or a write through an element)
+        others = [c for c in touching if c not in pushes and not c.get('cconst') and
+                  (field_name(object_of(c)) == 'mAttributes') and
+                  (c.get('callee') or '').split('::')[-1] not in ('size', 'empty')]
+        writes = [n for n in f.walk() if n.get('k') in ('BinaryOperator', 'CompoundAssignOperator') and
+                  (n.get('op') or '').endswith('=') and n.get('op') not in ('==', '!=', '<=', '>=') and
+                  any(x.get('k') == 'MemberExpr' and x.get('ref', {}).get('name') == 'mAttributes'
+                      for x in walk(children(n)[0]))]
+        writes += [c for c in f.calls() if (c.get('callee') or '').endswith('operator=') and call_args(c) and
+                   any(x.get('k') == 'MemberExpr' and x.get('ref', {}).get('name') == 'mAttributes'
+                       for x in walk(object_of(c) or children(c)[1] if len(children(c)) > 1 else {}))]
+        chk.check(bool(pushes) and not missing and not twice and not others and not writes, 'R3', f.name,
+                  'every addAttribute() appends exactly one entry and changes nothing else (so that add and the scoped '
+                  'remove stay balanced)', f.loc(),
+                  'paths without an append: %s; two appends on a path: %s; other modifications: %d' % (
+                      bool(missing), twice, len(others) + len(writes)))
+
+
 def r4(chk, prog):
     n = 0
     for f in prog.functions:
@@ -360,4 +394,5 @@ def run(chk):
     r1(chk, prog)
     r2(chk, prog)
     r3(chk, prog)
+    r3_add_balance(chk, prog)
     r4(chk, prog)
